@@ -84,6 +84,7 @@ package tasks
 //@   ensures result == e
 //@ func NewTask [C14]
 //@   layers contract trace
+//@   keeps stable
 //@   trace (*WaitGroup).Add as WGADD
 //@   at_call (*WaitGroup).Add requires $1 == 1
 //@   trace_ensures true : WGADD
